@@ -37,9 +37,9 @@ type Val struct {
 }
 
 type cell struct {
-	arr  [][]int
-	val  *Val
-	set  bool
+	arr [][]int
+	val *Val
+	set bool
 }
 
 // Eval evaluates loop-free functions.
